@@ -40,6 +40,22 @@ func zzLoad(diamond bool) (string, string, bool) {
 		edge("a", "c", "c", "")
 		edge("b", "c", "c", "sub") // one parent includes it with dir:, the other plainly
 	}
+	if zz.Param("deep", 0) == 1 {
+		// both parents include c in map form with their own value for WHO, and c itself
+		// includes a further file in map form: its tasks carry include vars of two levels
+		uri["e"] = "/p/lib/deep/Taskfile.yml"
+		e := mk("e")
+		_ = g.AddVertex(&TaskfileVertex{URI: uri["e"], Taskfile: e})
+		vedge := func(from, to, ns, name, val string) {
+			inc := &Include{Namespace: ns, Taskfile: uri[to], AdvancedImport: true, Vars: NewVars()}
+			inc.Vars.Set(name, Var{Value: val})
+			_ = g.RemoveEdge(uri[from], uri[to])
+			_ = g.AddEdge(uri[from], uri[to], graph.EdgeData([]*Include{inc}))
+		}
+		vedge("a", "c", "c", "WHO", "from-a")
+		vedge("b", "c", "c", "WHO", "from-b")
+		vedge("c", "e", "e", "LEVEL", "from-c")
+	}
 	tf, err := g.Merge()
 	if err != nil || tf == nil {
 		return "", "", false
@@ -50,6 +66,15 @@ func zzLoad(diamond bool) (string, string, bool) {
 	order := ""
 	for name := range tf.Tasks.Keys(nil) {
 		order += name + ","
+	}
+	// the include variables every merged task carries are part of what a load computes
+	for name, t := range tf.Tasks.All(nil) {
+		if t.IncludeVars != nil {
+			for k, v := range t.IncludeVars.All() {
+				vs, _ := v.Value.(string)
+				xs += ";" + name + "." + k + "=" + vs
+			}
+		}
 	}
 	return xs, order, true
 }
